@@ -63,7 +63,7 @@ def preload():
     import msdm.domains.cliffwalking, msdm.domains.tiger, msdm.domains.loadunload, msdm.domains.heavenorhell  # noqa
 
 
-ENVS = ('prior', 'midrun', 'midrun', 'reuse', 'warm', 'abort', 'unpatched', 'twin', 'nested')
+ENVS = ('prior', 'midrun', 'midrun', 'reuse', 'warm', 'abort', 'unpatched', 'twin', 'nested', 'shared')
 
 
 def gen_case(rng, tier, idx):
@@ -74,6 +74,10 @@ def gen_case(rng, tier, idx):
         envs = [e if e != 'reuse' else 'prior' for e in envs]
     if _twin_problem(sc) is None:
         envs = [e if e != 'twin' else 'warm' for e in envs]
+    if sc['component'] not in ('semimdp', 'rollout_mdp', 'evaluate_mdp') or sc['problem'].get('type') != 'mdp':
+        envs = [e if e != 'shared' else 'nested' for e in envs]
+    elif 'shared' not in envs and rng.random() < 0.5:
+        envs.append('shared')
     return dict(kind='inproc', scenario=sc, envs=envs, inject_p=rng.choice((0.02, 0.1, 0.5)),
                 sched=dict(seed=f"sched:{rng.getrandbits(64)}", mode='P'))
 
@@ -172,7 +176,7 @@ class Cotenant:
         self.where = where
 
 
-def _run(sc, ctx, sched, *, patched=True, cot=None, algo=None, problem=None, warm=False, abort_at=None, nest=None):
+def _run(sc, ctx, sched, *, patched=True, cot=None, algo=None, problem=None, warm=False, abort_at=None, nest=None, share=False):
     """One execution of the scenario.  Returns (canonical result, algo, problem)."""
     comp = sc['component']
     st = dict(n=0)
@@ -198,7 +202,7 @@ def _run(sc, ctx, sched, *, patched=True, cot=None, algo=None, problem=None, war
     ctx.cb_hooks = [on_cb]
     sched.hooks = [lambda kind: on_cb('draw')] if (cot is not None or abort_at is not None) else []
     env = S.Env(ctx=ctx, rng_factory=(lambda seed: FaithfulRandom(seed, sched)) if patched else None,
-                listener_cb=lambda: on_cb('listener'))
+                listener_cb=lambda: on_cb('listener'), share=share)
     if problem is None:
         problem = S.build_problem(sc['problem'], ctx)
         if warm and problem is not None:
@@ -234,7 +238,7 @@ def execute(case, script=None):
     comp = sc['component']
     ctx = RunCtx(PROP, None)
     ctx.CB_CAP = 10 ** 8
-    ctx.declare_probes('reference_ok', 'env_prior', 'env_midrun', 'env_reuse', 'env_warm', 'env_abort', 'env_unpatched', 'env_twin', 'env_nested', 'nested_runs_delivered', 'injections',
+    ctx.declare_probes('reference_ok', 'env_prior', 'env_midrun', 'env_reuse', 'env_warm', 'env_abort', 'env_unpatched', 'env_twin', 'env_nested', 'env_shared', 'nested_runs_delivered', 'injections',
                        'aborts_delivered', 'seed_zero', 'string_keys', 'shipped_domain', 'equally_seeded_pairs')
     sched = Scheduler(case['sched']['seed'], mode='P', cap=10 ** 9)
     ctx.sched = sched
@@ -308,6 +312,11 @@ def execute(case, script=None):
                     raise
                 out, _, _ = _run(sc, ctx, sched)
                 compare(out, 'after-an-equal-keyed-twin-problem-in-the-same-process')
+            elif envname == 'shared':
+                gset(12)
+                sched.fire('F10_shared_object')
+                out, _, _ = _run(sc, ctx, sched, share=True)
+                compare(out, 'option-or-policy-object-first-used-on-another-model')
             elif envname == 'nested':
                 gset(11)
                 which = prng.randrange(3)
